@@ -101,7 +101,7 @@ fn gen_ops(rng: &mut Rng, data_len: usize, crash: bool) -> Vec<ROp> {
             0 => {
                 if rng.chance(1, 150) {
                     // "everything there is"
-                    ROp::Request(*rng.pick(&[usize::MAX, usize::MAX / 2, 1 << 40]))
+                    ROp::Request(*rng.pick(&[usize::MAX, usize::MAX / 2, crate::rng::TWO_POW_40]))
                 } else if rng.chance(1, 6) {
                     ROp::Request(rng.below(data_len + 12))
                 } else {
@@ -110,7 +110,7 @@ fn gen_ops(rng: &mut Rng, data_len: usize, crash: bool) -> Vec<ROp> {
             }
             1 => ROp::RequestByte,
             2 => ROp::RequestByteAt(if rng.chance(1, 150) {
-                *rng.pick(&[usize::MAX, usize::MAX - 1, 1 << 40])
+                *rng.pick(&[usize::MAX, usize::MAX - 1, crate::rng::TWO_POW_40])
             } else if rng.chance(1, 8) {
                 rng.below(data_len + 12)
             } else {
